@@ -120,6 +120,10 @@ def write_makefile():
 
 def make(targets, timeout=2400, jobs=16):
     write_makefile()
+    # the extraction files write into ocaml/gen and the translator into coq/gen: both are untracked, so a fresh
+    # checkout does not have them
+    os.makedirs(os.path.join(ROOT, "ocaml", "gen"), exist_ok=True)
+    os.makedirs(os.path.join(COQ, "gen"), exist_ok=True)
     return sh(["make", "-j%d" % jobs, "-k"] + targets, cwd=COQ, timeout=timeout)
 
 
